@@ -15,14 +15,19 @@
 
 use anyhow::Context as _;
 use sciparse::{
+    checksum::ChecksumDigest,
     dataplane_path::view::ScionDpPathViewExt,
+    header::model::AddressHeader,
     packet::{
         model::{ScionRawPacket, ScionScmpPacket},
         view::ScionRawPacketView,
     },
-    payload::scmp::{
-        model::{ScmpEchoReply, ScmpMessage},
-        view::ScmpMessageView,
+    payload::{
+        ProtocolNumber,
+        scmp::{
+            model::{ScmpEchoReply, ScmpMessage},
+            view::ScmpMessageView,
+        },
     },
 };
 
@@ -77,6 +82,18 @@ impl DefaultEchoHandler {
         let dst = p
             .dst_scion_addr()
             .context("Failed to decode destination address")?;
+
+        // Only well-formed requests are answered: the checksum over the pseudo header and the
+        // message (including its checksum field) must verify.
+        let message = p.payload();
+        let checksum = ChecksumDigest::with_pseudoheader(
+            &AddressHeader::new(src, dst),
+            ProtocolNumber::Scmp.into(),
+            message,
+        )
+        .add_slice(message)
+        .checksum();
+        anyhow::ensure!(checksum == 0, "SCMP checksum does not verify");
 
         let reply = ScionScmpPacket::new(dst, src, reply_path, reply_msg);
 
